@@ -23,6 +23,11 @@ CONFIG = {'assumptions': [
     'parse_expr is observed as a function of (configuration, bytes): fresh parser objects per history case, the same '
     'bytes parsed repeatedly, every mutable part of each returned result (args lists, blobs, nested op lists, the outer '
     'list, the list passed in) edited in place by the caller between calls; every call must return the stateless parse',
+    'histories also contain other single-threaded activity of the process between parses (a .debug_frame decoded through '
+    'CallFrameInfo over the same DWARFStructs configuration, other DWARFStructs requested, parser replaced / deep-copied, '
+    'gc): the outcome of that activity is not observed, the parses after it are; after a history that changed the answers '
+    'of parsers it never touched, the remaining histories of the run are skipped (they would not replay). Thread '
+    'schedules are outside the property',
     'other malformed inputs (truncated fixed-size / LEB128 / typed operands, DW_OP_WASM_location tags > 3) are outside '
     'the property (model vs implementation only)']}
 LEVEL = {'text': 'Machine-checked theorem: for every configuration, every list of well-formed operations of the DWARF 2-5 + '
@@ -601,7 +606,7 @@ def _impl(parsers, cfg, data):
     return impl_call(lambda: ['ok', _conv_ops(p.parse_expr(list(data)))])
 
 
-def _blame(ctx, parsers, table, cfg, ops):
+def _blame(ctx, parsers, table, cfg, ops, impl=None):
     """finding key of a failing in-domain case: the first operation (innermost first) that also fails alone.
     Each classification costs a driver round trip: after BLAME_CAP failing cases (everything fails, e.g. an empty
     dispatch table) the remaining ones are only sorted by their outcome."""
@@ -610,8 +615,8 @@ def _blame(ctx, parsers, table, cfg, ops):
     if n >= BLAME_CAP:
         if n == BLAME_CAP:
             ctx.notes.append('more than %d failing cases: the later ones are not classified per operation' % BLAME_CAP)
-        r = ctx.driver.one(['case', cfg, ops])
-        impl = _impl(parsers, cfg, r[2])
+        if impl is None:
+            impl = _impl(parsers, cfg, ctx.driver.one(['case', cfg, ops])[2])
         return 'unclassified-after-%d-failures-%s' % (BLAME_CAP, impl[1] if impl[0] == 'err' else 'wrong-result')
     seen = set()
     singles = []
@@ -678,7 +683,7 @@ def evaluate(ctx, cases):
             model = _norm(model)
             key = None
             if impl != spec:
-                key = _blame(ctx, parsers, table, cfg, ops)
+                key = _blame(ctx, parsers, table, cfg, ops, impl)
             n = count_ops(ops)
             ctx.bump('ops_per_expr', n if n < 3 else '3-9' if n < 10 else '10-99' if n < 100 else '100+')
             ctx.bump('nesting_depth', depth_of(ops))
@@ -749,7 +754,8 @@ def evaluate(ctx, cases):
             key = None
             if impl != spec:
                 if alone_before:                       # wrong already as a first parse on an unrelated parser
-                    key = _blame(ctx, parsers, table, cfg, exprs[alone_before[0]])
+                    key = _blame(ctx, parsers, table, cfg, exprs[alone_before[0]],
+                                 _impl(parsers, cfg, datas[alone_before[0]]))
                 else:
                     key = 'history-dependence'
                     if any(_impl(parsers, cfg, datas[ei]) != expected[ei] for ei in used):
